@@ -108,6 +108,25 @@ theorem filterM'_le {f f' : Val → Res} (h : ∀ v, ELe (f v) (f' v)) :
     simp only [filterM']
     exact ELe.bind (h v) (fun _ => ELe.bind (filterM'_le h vs) (fun _ => ELe.refl _))
 
+theorem filterMB_le {f f' : Val → Except EErr Bool} (h : ∀ v, ELe (f v) (f' v)) :
+    ∀ vs, ELe (filterMB f vs) (filterMB f' vs)
+  | [] => ELe.refl _
+  | v :: vs => by
+    simp only [filterMB]
+    exact ELe.bind (h v) (fun _ => ELe.bind (filterMB_le h vs) (fun _ => ELe.refl _))
+
+theorem condsHold_le : ∀ {rs rs' : List Res}, All2 ELe rs rs' → ELe (condsHold rs) (condsHold rs')
+  | [], [], _ => ELe.refl _
+  | r :: rs, r' :: rs', h => by
+    cases h with
+    | cons h1 h2 =>
+      simp only [condsHold]
+      apply ELe.bind h1
+      intro v
+      split
+      · exact condsHold_le h2
+      · exact ELe.refl _
+
 theorem foldM'_le {f f' : Val → Val → Res} (h : ∀ a v, ELe (f a v) (f' a v)) :
     ∀ vs acc, ELe (foldM' f acc vs) (foldM' f' acc vs)
   | [], _ => ELe.refl _
@@ -350,13 +369,10 @@ theorem compSem_le (t : Option String) {e e' i i' : Den} {ifs ifs' : List Den} (
     apply ELe.bind (ELe.refl _)
     intro vs
     apply ELe.bind
-    · apply filterM'_le
+    · apply filterMB_le
       intro v
-      apply andChain_le
-      refine .cons (ELe.refl _) ?_
-      induction hifs with
-      | nil => exact .nil
-      | cons h1 _ ih => exact .cons (h1 _) ih
+      apply condsHold_le
+      exact hifs.apply_env _
     · intro keep
       exact ELe.bind (mapRes_le (fun v => he _) keep) (fun _ => ELe.refl _)
   · exact ELe.refl _
